@@ -288,6 +288,22 @@ func treeShape(e sx.Sexp) bool {
 	return true
 }
 
+// plain: values the serializer hands to a collector unchanged (no hash entry outside a hash)
+func plain(v px.Value, top bool) bool {
+	ok := true
+	switch v := v.(type) {
+	case *types.HashEntry:
+		return false
+	case *types.Array:
+		v.Each(func(e px.Value) { ok = ok && plain(e, false) })
+	case *types.Hash:
+		v.EachPair(func(k, e px.Value) { ok = ok && plain(k, false) && plain(e, false) })
+	case *types.MutableHashValue:
+		return false
+	}
+	return ok
+}
+
 // mutableInside: a MutableHashValue strictly inside a value (a builder that leaked into an immutable value)
 func mutableInside(v px.Value, top bool, depth int) bool {
 	if depth > 40 {
@@ -314,14 +330,88 @@ func mutableInside(v px.Value, top bool, depth int) bool {
 	return found
 }
 
-// staleType: the inferred type of a mutable hash after Put/PutAll must be the inferred type of an equal, freshly
-// built hash ("inferring its type" is one of the property's operations; the snapshot has asked for the type before)
-func staleType(m *types.MutableHashValue) (string, bool) {
-	es := make([]*types.HashEntry, 0, m.Len())
-	m.EachPair(func(k, v px.Value) { es = append(es, types.WrapHashEntry(k, v)) })
-	want := types.WrapHash(es).PType().String()
-	got := m.PType().String()
-	return "inferred type " + got + ", an equal fresh hash has " + want, got != want
+// The caches.  Everything a value answers out of its lazily built caches — inferred type (reducedType), detailed type
+// (detailedType) and, for a hash, the key index (index: each entry must be found under its own key) — must at all times
+// be what an equal value built afresh (empty caches) answers: "inferring its type, printing, hashing …" fill these
+// caches, and the property demands that this changes no observation.  The fresh value's answers are taken once, when
+// the entry is created (its content never changes — that is the snapshot predicate).
+type cacheWant struct {
+	reduced, detailed px.Type
+	found             string // per entry: is it what a lookup of its key answers? (not when a key occurs twice)
+}
+
+// lookups: for every entry of a hash, whether a lookup of its key finds exactly that entry
+func lookups(v px.Value) string {
+	h := hashOf(v)
+	if h == nil {
+		return ""
+	}
+	var b strings.Builder
+	h.EachPair(func(k, e px.Value) {
+		if got, ok := h.Get(k); ok && h.IncludesKey(k) && got == e {
+			b.WriteByte('t')
+		} else {
+			b.WriteByte('f')
+		}
+	})
+	return b.String()
+}
+
+func wantOf(v px.Value) (w *cacheWant) {
+	if err := safely(func() {
+		fresh := rebuilt(v)
+		w = &cacheWant{fresh.PType(), px.DetailedValueType(fresh), lookups(fresh)}
+	}); err != nil {
+		return nil // a corrupted value (nil element): the snapshot predicate reports that
+	}
+	return w
+}
+
+// staleCache: does the value answer differently from an equal fresh one?
+func staleCache(v px.Value, w *cacheWant) (msg string, stale bool) {
+	if w == nil {
+		return "", false
+	}
+	if err := safely(func() {
+		if r := v.PType(); !r.Equals(w.reduced, nil) {
+			msg, stale = "infers type "+r.String()+", an equal fresh value "+w.reduced.String(), true
+			return
+		}
+		if d := px.DetailedValueType(v); !d.Equals(w.detailed, nil) {
+			msg, stale = "infers detailed type "+d.String()+", an equal fresh value "+w.detailed.String(), true
+			return
+		}
+		if got := lookups(v); got != w.found {
+			msg, stale = "answers lookups of its own keys "+got+", an equal fresh value "+w.found, true
+		}
+	}); err != nil {
+		return "faults when asked for its type or a key", true
+	}
+	return msg, stale
+}
+
+func hashOf(v px.Value) *types.Hash {
+	switch h := v.(type) {
+	case *types.Hash:
+		return h
+	case *types.MutableHashValue:
+		return &h.Hash
+	}
+	return nil
+}
+
+// rebuilt: an equal container built afresh around the same elements
+func rebuilt(v px.Value) px.Value {
+	switch v := v.(type) {
+	case *types.Array:
+		return types.WrapValues(v.AppendTo(make([]px.Value, 0, v.Len())))
+	case *types.Hash, *types.MutableHashValue:
+		h := hashOf(v)
+		es := make([]*types.HashEntry, 0, h.Len())
+		h.EachPair(func(k, e px.Value) { es = append(es, types.WrapHashEntry(k, e)) })
+		return types.WrapHash(es)
+	}
+	return v
 }
 
 // ---- functions passed to Map / Select / Sort ---------------------------------------------------------------------
@@ -377,12 +467,13 @@ func less(a, b px.Value) bool { return walk(a) < walk(b) }
 // ---- the pool --------------------------------------------------------------------------------------------------
 
 type entry struct {
-	v    px.Value // nil: no value (mark says why)
-	kind byte     // 'a' array, 'h' hash, 'm' mutable hash
-	mark string   // "-" observer, "!" fault, "~" inapplicable, "^" slice bounds outside 0 ≤ i ≤ j ≤ len
-	snap string   // snapshot when obtained
-	cont string   // canonical content when obtained
-	dead bool     // a mutable hash superseded by a later mput (its object now legitimately differs)
+	v    px.Value   // nil: no value (mark says why)
+	kind byte       // 'a' array, 'h' hash, 'm' mutable hash
+	mark string     // "-" observer, "!" fault, "~" inapplicable, "^" slice bounds outside 0 ≤ i ≤ j ≤ len
+	snap string     // snapshot when obtained
+	cont string     // canonical content when obtained
+	dead bool       // a mutable hash superseded by a later mput (its object now legitimately differs)
+	want *cacheWant // what an equal fresh value answers from its caches
 }
 
 func (e *entry) live() bool { return e.v != nil && !e.dead }
@@ -547,9 +638,6 @@ func (h *hist) step(c px.Context, st sx.Sexp) (res *entry, recv int, args []int)
 		}
 		switch op {
 		case "addall":
-			if isHash && s.kind == 'a' {
-				return marker("~"), recv, args // WrapHashFromArray: type-inference dependent, not part of this harness
-			}
 			return call(func() { out = r.list().AddAll(sl) }), recv, args
 		case "deleteall":
 			return call(func() { out = r.list().DeleteAll(sl) }), recv, args
@@ -611,8 +699,13 @@ func (h *hist) step(c px.Context, st sx.Sexp) (res *entry, recv int, args []int)
 		return marker("~"), recv, nil
 	case "chunk":
 		nn, k := a[1].MustInt(), a[2].MustInt()
-		if nn < 1 || nn > 64 || k < 0 || k*nn >= int64(r.list().Len()) {
-			return marker("~"), recv, nil // (EachSlice(0, …) does not terminate; no such chunk)
+		if nn < 1 {
+			// a slice size below one is an argument error (before "fix: EachSlice with a slice size below one …" a
+			// size of zero made EachSlice loop forever: the frame's per-op deadline reports that as `timeout`)
+			return call(func() { r.list().EachSlice(int(nn), func(px.List) {}) }), recv, nil
+		}
+		if nn > 64 || k < 0 || k*nn >= int64(r.list().Len()) {
+			return marker("~"), recv, nil // no such chunk
 		}
 		idx := int64(0)
 		return call(func() {
@@ -718,15 +811,53 @@ func (h *hist) step(c px.Context, st sx.Sexp) (res *entry, recv int, args []int)
 			_ = l.AppendTo(make([]px.Value, 0, 1))
 			_ = l.ElementType()
 			_ = l.IsEmpty()
+			l.Reduce2(px.Undef, func(a, b px.Value) px.Value { return b })
+			if hh := r.hash(); hh != nil {
+				hh.AllPairs(func(k, v px.Value) bool { return true })
+				hh.AnyPair(func(k, v px.Value) bool { return false })
+				hh.EachKey(func(px.Value) {})
+				hh.EachValue(func(px.Value) {})
+				hh.EachPair(func(k, v px.Value) {
+					hh.IncludesKey(k)
+					hh.Get2(k, px.Undef)
+					hh.GetEntry(k.String())
+					hh.GetEntryFold(k.String())
+				})
+				_ = hh.ToStringMap()
+				_ = hh.AllKeysAreStrings()
+				_ = hh.AppendEntriesTo(nil)
+			} else if ar, ok := r.v.(*types.Array); ok {
+				ar.Dig(types.WrapValues([]px.Value{types.WrapInteger(0), types.WrapInteger(0)}))
+			}
+			if rf, ok := r.v.(px.Reflected); ok {
+				_ = safely(func() { _ = rf.Reflect(c) }) // (values without a Go counterpart may refuse)
+			}
 		}), recv, nil
 	case "ser":
+		plainData := r.kind != 'm' && plain(r.v, true)
 		return call(func() {
 			col := types.NewCollector()
 			serialization.NewSerializer(c, richData).Convert(r.v, col)
-			_ = col.Value()
+			if plainData {
+				out = col.Value()
+			}
 			var buf bytes.Buffer
 			serialization.NewSerializer(c, richData).Convert(r.v, serialization.NewJsonStreamer(&buf))
 		}), recv, nil
+	case "deser":
+		plainData := r.kind != 'm' && plain(r.v, true)
+		return call(func() {
+			ds := serialization.NewDeserializer(c, px.EmptyMap)
+			serialization.NewSerializer(c, richData).Convert(r.v, ds)
+			if v := ds.Value(); plainData {
+				out = v
+			}
+		}), recv, nil
+	case "resolve":
+		if r.kind == 'm' {
+			return marker("~"), recv, nil
+		}
+		return call(func() { out = types.ResolveDeferred(c, r.v, px.EmptyMap) }), recv, nil
 	}
 	panic(fmt.Errorf("bad step %s", st))
 }
@@ -828,7 +959,7 @@ func wellFormed(st sx.Sexp) bool {
 		return shape(isInt, isFn)
 	case "select", "reject", "selectpairs", "rejectpairs":
 		return shape(isInt, isPred)
-	case "sort", "flatten", "unique", "keys", "values", "entries", "asarray", "ptype", "dtype", "tostring", "tokey", "walk", "ser":
+	case "sort", "flatten", "unique", "keys", "values", "entries", "asarray", "ptype", "dtype", "tostring", "tokey", "walk", "ser", "deser", "resolve":
 		return shape(isInt)
 	}
 	return false
@@ -942,16 +1073,12 @@ func exec(c px.Context, op string, steps []sx.Sexp) core.Result {
 				e.cont = "panic"
 			}
 			e.snap = snapshot(e.v)
+			e.want = wantOf(e.v)
 		}
 		if e.v != nil && fail == "" {
 			if mutableInside(e.v, true, 0) {
 				failClass = "mutable-inside." + st.Tag()
 				fail = fmt.Sprintf("step %d %s answered a value that holds a MutableHashValue (a builder that can still be changed): %s", n, st.String(), e.cont)
-			} else if m, ok := e.v.(*types.MutableHashValue); ok && (st.Tag() == "mput" || st.Tag() == "mputall") {
-				if msg, stale := staleType(m); stale {
-					failClass = "stale-type." + st.Tag()
-					fail = fmt.Sprintf("step %d %s: %s", n, st.String(), msg)
-				}
 			}
 		}
 		h.uses = append(h.uses, 0)
@@ -964,6 +1091,16 @@ func exec(c px.Context, op string, steps []sx.Sexp) core.Result {
 			}
 		}
 		h.pool = append(h.pool, e)
+		// the caches: every live value must answer like an equal fresh value — checked for the values this step used
+		// and the one it created, and for ALL values after the last step (a stale cache does not heal)
+		for i := 0; i <= n && fail == ""; i++ {
+			if p := h.pool[i]; p.live() && (i == n || i == recv || contains(args, i) || n == len(steps)-1) {
+				if msg, stale := staleCache(p.v, p.want); stale {
+					failClass = "cache-stale." + st.Tag()
+					fail = fmt.Sprintf("step %d %s: value %d %s", n, st.String(), i, msg)
+				}
+			}
+		}
 		// the property, directly on the implementation: nothing obtained earlier may have changed
 		for i := 0; i < n; i++ {
 			p := h.pool[i]
@@ -1006,11 +1143,12 @@ func exec(c px.Context, op string, steps []sx.Sexp) core.Result {
 		}
 	}
 	// storage shape; `at` hands out a nested container whose identity the (one-level) model does not track
-	if h.tags["at"] || h.tags["get"] || h.tags["tree"] {
+	if h.tags["at"] || h.tags["get"] {
 		b.WriteString(" | shape n/a")
 	} else {
 		b.WriteString(" | shape " + h.shape())
 	}
+	b.WriteString(" | caches ok") // (a stale cache fails the predicate above before this line is reached)
 	nt := derived
 	for _, u := range h.uses {
 		if u >= 2 {
@@ -1178,7 +1316,55 @@ func randTree(r *rand.Rand) sx.Sexp {
 	return st("tree", av(items...))
 }
 
+// sizeBound: an upper bound on the number of nodes of the value a step creates, from the bounds of the entries it
+// uses — nested sharing ((v n) elements, addall of a value to itself, map wrap) can double a value at every step, and
+// walking a 2^25-node value is not what this check is about: the random generator re-draws a step above the limit
+func sizeBound(b []int, s sx.Sexp) int {
+	a := s.Args()
+	at := func(i int) int {
+		if i < len(a) {
+			if n, err := a[i].AsInt(); err == nil && n >= 0 && int(n) < len(b) {
+				return b[n]
+			}
+		}
+		return 1
+	}
+	el := func(i int) int {
+		if i < len(a) {
+			if a[i].Tag() == "v" {
+				if n, err := a[i].Args()[0].AsInt(); err == nil && n >= 0 && int(n) < len(b) {
+					return b[n] + 1
+				}
+			}
+			return strings.Count(a[i].String(), "(") + 1
+		}
+		return 1
+	}
+	switch s.Tag() {
+	case "lit", "parse", "tree":
+		return strings.Count(s.String(), "(")
+	case "coll":
+		return strings.Count(s.String(), "(")
+	case "mnew":
+		return 1
+	case "add", "mput":
+		return at(0) + el(1) + el(2) + 1
+	case "addall", "merge", "mputall":
+		return at(0) + at(1)
+	case "map", "mapvalues", "asarray", "flatten":
+		return 2*at(0) + 1
+	}
+	return at(0) + 1
+}
+
+const sizeLimit = 1500
+
 func randHistory(r *rand.Rand, length int) []sx.Sexp {
+	steps := randHistory0(r, length)
+	return steps
+}
+
+func randHistory0(r *rand.Rand, length int) []sx.Sexp {
 	steps := []sx.Sexp{randCtor(r), randCtor(r)}
 	if r.Intn(5) == 0 {
 		// a hash built by the tree constructor, its nested hashes taken out and operated on
@@ -1207,6 +1393,7 @@ func randHistory(r *rand.Rand, length int) []sx.Sexp {
 			}
 		}
 	}
+	var bounds []int
 	for len(steps) < length {
 		size := len(steps)
 		// receivers: biased towards a few "hot" values so that many steps share storage
@@ -1270,10 +1457,16 @@ func randHistory(r *rand.Rand, length int) []sx.Sexp {
 		case k < 37:
 			s = randCtor(r)
 		default:
-			s = st([]string{"ptype", "dtype", "tostring", "tokey", "ser", "walk"}[r.Intn(6)], rr)
+			s = st([]string{"ptype", "dtype", "tostring", "tokey", "ser", "walk", "resolve", "deser"}[r.Intn(8)], rr)
 			if r.Intn(6) == 0 {
 				s = st("equals", rr, pick())
 			}
+		}
+		for len(bounds) < len(steps) {
+			bounds = append(bounds, sizeBound(bounds, steps[len(bounds)]))
+		}
+		if sizeBound(bounds, s) > sizeLimit {
+			s = st("tostring", rr) // re-drawn as an observer
 		}
 		steps = append(steps, s)
 	}
